@@ -78,7 +78,8 @@ class ParProp(props.BaseProp):
     trusted_extra = [
         "rayon's implementation of the indexed collect, work stealing and memory ordering are NOT verified: "
         "modelled by Model/Par.v (schedule = order of execution of the work items) and Model/ParFns.v (failing items: "
-        "rayon::join re-raises its first closure's panic) and probed per run",
+        "rayon::join re-raises its first closure's panic; collect into Result keeps the error of the erring item that ran "
+        "first) and probed per run",
         "tools/gen_parsites.py (tokenizer-level scan of the crate for rayon call sites, unsafe and interior mutability)",
         "that the closures passed to rayon are the pure functions of (&Graph, item) transcribed in Model/ParFns.v is "
         "supported by the source scan, the C04/C05/C06 correspondence of the per-source models and bit-for-bit "
@@ -426,35 +427,54 @@ C07.manifest = {
             "PART 2, PER FUNCTION (Model/ParFns.v, Proofs/ParFnsOk.v): BOTH arms of `match parallel` of multi_source, "
             "all_pairs (all_pairs_iter / all_pairs_par_iter), get_all_shortest_paths_involving, betweenness_centrality "
             "and closeness_centrality are transcribed on top of the per-source functions of the algorithm models "
-            "(Model/Dijkstra.v, Brandes.v, Closeness.v), with the arm and the schedule as arguments. For every graph "
-            "state, every argument tuple and EVERY schedule the parallel arm returns exactly the outcome of the serial "
-            "arm - Ok values, Err kinds and panics alike (C07_multi_source_/all_pairs_/involving_/betweenness_/"
-            "closeness_parallel_eq_serial; closeness also in the form `WF g -> schedule of 0..n-1`), and for every "
-            "thread count, through the `number_of_nodes() > 20 && current_num_threads() > 1` switch, the function "
-            "equals the algorithm model that the correspondence checks of C04 / C05 / C06 tie to the code "
-            "(C07_*_sched_unobservable). The proofs never unfold the per-source functions nor the combine functions "
+            "(Model/Dijkstra.v, Brandes.v, Closeness.v), with the arm and the schedule as arguments. For every "
+            "argument tuple and EVERY schedule the parallel arm returns exactly the outcome of the serial arm - Ok "
+            "values, Err kinds and panics alike - and for every thread count, through the `number_of_nodes() > 20 && "
+            "current_num_threads() > 1` switch, the function equals the algorithm model that the correspondence checks "
+            "of C04 / C05 / C06 tie to the code (C07_*_parallel_eq_serial, C07_*_sched_unobservable): for betweenness / "
+            "closeness on every graph state (closeness also in the form `WF g -> schedule of 0..n-1`); for multi_source, "
+            "all_pairs, get_all_shortest_paths_involving on every state with a coherent adjacency (wf_adj; multi_source: "
+            "and coherent name indexes), in particular every WF = every reachable state (C07_multi_source_/all_pairs_"
+            "parallel_eq_serial_WF), for ANY weights (negative ones included), names, options and cutoff - and on "
+            "EVERY graph state as far as success and the Ok value are concerned (C07_multi_source_ok_any_state, "
+            "C07_all_pairs_ok_any_state). Why the split: since the repair of F22 the closures of all_pairs / "
+            "multi_source RETURN the per-source Result and the region is `collect::<Result<Vec<_>, Error>>()`; rayon "
+            "keeps the error of the erring item that ran first and starts no further item (`If there are multiple "
+            "errors, the one returned is not deterministic`), the serial collect keeps the error of the lowest index. "
+            "Model/ParFns.v transcribes that region (gather_result_par; rayon 1.12 src/result.rs); "
+            "C07_result_region: success and the Ok value never depend on the schedule, a failure is that of SOME "
+            "failing item, and the region equals the serial collect as soon as the failing items fail alike - which "
+            "they do: the per-source search neither panics nor runs out of fuel on a coherent adjacency, the ONLY Err "
+            "it can return is ContradictoryPaths (Proofs/DijkstraErrKind.v, every graph state), and multi_source has "
+            "checked the names up front, so NodeNotFound is excluded (C07_multi_source_items_fail_alike, "
+            "C07_all_pairs_items_fail_alike). On an incoherent state one item could panic while another returns Err; "
+            "the real arms could then differ too (Example result_region_keeps_some_error), so the full equalities are "
+            "no longer claimed there. The proofs never unfold the per-source functions nor the combine functions "
             "(accumulate_betweenness, HashMap insert): the fold order, hence the value, is the same in ANY number "
-            "structure, associative or not (C07_loop_shape_any_combine: combine universally quantified). Failing work "
-            "items (`.unwrap()` inside the closures): a work item is a function into outcomes; the region fails with "
+            "structure, associative or not (C07_loop_shape_any_combine: combine universally quantified). Work items "
+            "that PANIC (`.unwrap()` / indexing inside the closures; betweenness, closeness): the region fails with "
             "the failure of the LOWEST failing index, which is rayon::join's documented rule (`the first closure's "
             "panic wins`; a split is join(lower, upper), a leaf runs in index order) - C07_region_plan_semantics proves "
             "it for every fork-join plan, C07_region_with_failing_items for every schedule - and is what the serial loop "
-            "does. Without that rule (`the failing item executed first wins`, C07_pessimistic_region) success and the "
-            "value never depend on the schedule and the arms still agree whenever the failing items fail alike: "
-            "proved for all_pairs / involving on every well-formed adjacency (the only item failure is the unwrap at "
-            "dijkstra.rs:172: C07_all_pairs_pessimistic, C07_involving_pessimistic), for betweenness always "
-            "(C07_betweenness_pessimistic), for multi_source / closeness under the stated fail_alike hypothesis, which "
-            "holds when the per-source calls succeed (C07_multi_source_items_ok, from C04_model_single_source_names). "
+            "does. Without that rule (`the failing item executed first wins` for every kind of failure, "
+            "C07_pessimistic_region) the same conclusions hold under the same hypotheses (C07_all_pairs_pessimistic, "
+            "C07_involving_pessimistic, C07_multi_source_pessimistic_wf - no hypothesis on weights, names or cutoff is "
+            "left -, C07_betweenness_pessimistic always, closeness under its fail_alike hypothesis). "
             "The hypotheses of the region model are re-extracted from the current source tree on every run "
             "(tools/gen_parsites.py -> Gen/ParSites.v) and re-proved by vm_compute (C07_par_sites_ok, "
             "C07_par_sites_modelled): exactly the four sites betweenness_centrality, closeness_centrality, all_pairs (via "
-            "all_pairs_par_iter), multi_source; indexed source, adaptors = {map}, collect into Vec, sequential "
+            "all_pairs_par_iter), multi_source; indexed source, adaptors = {map}, collect into Vec (the two centrality "
+            "loops) resp. into Result<Vec<_>, Error> (all_pairs, multi_source) - C07_par_site_shapes pins which function "
+            "uses which region, so the transcription and the source cannot part ways silently -, sequential "
             "consumption, no Mutex/atomic/RefCell/unsafe anywhere in the crate, thresholds <= 20.",
     "note": "NOT proved: rayon's implementation of the indexed collect and of join, real work stealing and memory "
             "ordering (modelled by run_par / run_plan; per-run probes: the schedule rayon really used is recorded and "
             "the Coq model must reproduce the collected vector from it, and - observation 63 - regions with FAILING "
             "items, low indices made slow, must re-raise the panic of the lowest failing index, as the model's region "
-            "says, for pool sizes 1..16 and Vec / Range sources); that the Rust closures are the pure functions of "
+            "says, for pool sizes 1..16 and Vec / Range sources; observations 64/65 - regions whose items RETURN "
+            "Err(i), collected into Result<Vec<_>, E>: the index whose error rayon kept must be admitted by "
+            "gather_result_par; in the quick run rayon kept an error other than the lowest erring index in about half "
+            "of the probes with errors, i.e. the non-determinism the model allows is real); that the Rust closures are the pure functions of "
             "(&Graph, item) the models say - supported by the source scan (no interior mutability, no unsafe => shared "
             "&Graph is race-free by Rust's type system) and by the correspondence checks of C04/C05/C06 on the "
             "per-source models. The arms are hand transcriptions of dijkstra.rs:100-399,606, betweenness.rs:50-74, "
@@ -469,7 +489,9 @@ C07.manifest = {
             "8 threads hammering one shared &Graph with read-only calls while the parallel functions run. A source "
             "change that leaves the modelled fragment (reduce/sum/fold/for_each/par_bridge, unindexed source, collect "
             "into a map, a Mutex) is reported as VIOLATION ... no-failing-input-found unless the exploration finds "
-            "differing bits. Axioms: none (Closed under the global context) for all 28 pinned theorems.",
+            "differing bits. Since F22: every eighth exploration graph carries negative weights and is run through the three "
+            "dijkstra.rs functions (Err(ContradictoryPaths) / [] identical under every pool size and equal to the serial "
+            "per-source reference). Axioms: none (Closed under the global context) for all 37 pinned theorems.",
     "technique": "Coq proof about a schedule / fork-join model of the rayon fragment and about both transcribed arms of "
                  "the five functions + source-extracted hypotheses re-proved per run (vm_compute) + schedule-probe and "
                  "panic-probe correspondence + bit-for-bit exploration on the implementation",
